@@ -72,6 +72,13 @@ inductive StepRes (K : Type) where
   | outOfFuel
 deriving Repr, DecidableEq, Inhabited
 
+/-- number of trial points a line-search result reports having evaluated -/
+def StepRes.trials {K : Type} : StepRes K → Nat
+  | .armijo _ _ _ t => t
+  | .fallback _ _ _ t => t
+  | .failed t => t
+  | .outOfFuel => 0
+
 /-- Armijo acceptance test `norm_trial <= (1 - c*alpha) * current_norm` (false when `current_norm` is NaN) -/
 def armijoAccept (c α n : K) (cur : Option K) : Bool :=
   match cur with
@@ -203,4 +210,17 @@ def newton (N : List K → NormRes K) (solve : List K → Option (List K)) (step
   newtonLoop N solve stepper tol maxAttempts 0 x0
 
 end
+/-! ### the instances the correspondence driver executes (core `Rat`, import-free) -/
+
+def armijoRat (N : List Rat → NormRes Rat) (cfg : ArmijoCfg Rat) (fuel : Nat) (x0 δ : List Rat) (cur : Option Rat) :
+    StepRes Rat := armijo N cfg fuel x0 δ cur
+def plainStepRat (N : List Rat → NormRes Rat) (maxDelta : Option Rat) (x δ : List Rat) : PlainRes Rat :=
+  plainStep N maxDelta x δ
+def newtonArmijoRat (N : List Rat → NormRes Rat) (solve : List Rat → Option (List Rat)) (cfg : ArmijoCfg Rat)
+    (fuel : Nat) (tol : Rat) (maxAttempts : Nat) (x0 : List Rat) : Outcome Rat × Hist Rat :=
+  newton N solve (armijoStepper N cfg fuel) tol maxAttempts x0
+def newtonPlainRat (N : List Rat → NormRes Rat) (solve : List Rat → Option (List Rat)) (maxDelta : Option Rat)
+    (tol : Rat) (maxAttempts : Nat) (x0 : List Rat) : Outcome Rat × Hist Rat :=
+  newton N solve (plainStepper N maxDelta) tol maxAttempts x0
+
 end HitenModel.C05
